@@ -5,9 +5,10 @@
     and ([C01_fw_sound]) for the fragment with FIREWALL queries and their transitive-firewall-
     callee bookkeeping, and ([C01_model_sound]) for the full model [Engine/Model.v] on programs
     with Normal, Firewall and Projection queries, unordered groups and ([C01_model_sound_x])
-    external inputs, i.e. every query kind of the property.  What stays outside the theorems:
-    the model runs the parallel tasks of one request one after the other, and it is tied to the
-    code by the correspondence run (answers, executions, bookkeeping) rather than by proof. *)
+    external inputs, i.e. every query kind of the property, and ([C01_model_sound_any_task_order])
+    for every order of the parallel tasks of a request.  What stays outside the theorems: true
+    interleaving of those tasks, and the tie between model and code, which is the correspondence
+    run (answers, executions, bookkeeping), not a proof. *)
 From QV Require Import Common.Prelude Engine.Model Engine.Core Engine.CoreSpec Engine.CoreSound.
 From QV Require Import Engine.Fw Engine.FwSpec Engine.FwSound.
 From QV Require Import Engine.MdlSpec Engine.MdlSound Engine.MdlNoPanic.
@@ -87,6 +88,28 @@ Theorem C01_model_sound_x :
                 ext_after (firstn (S i) ops) (firstn (S i) (run_history p init_state ops))) n z.
 Proof. exact MdlSound.model_sound_x. Qed.
 
+(** ... and for EVERY ORDER in which the parallel tasks of one request run: the real engine runs the
+    repairs of a root's transitive firewall callees and the backward projections of a changed
+    firewall as parallel tasks in hash-set order; [run_history_o tord bord] runs them in the order
+    chosen, per state and per root, by the oracles [tord] / [bord] (any permutations:
+    [order_ok]); [run_history] is the instance with the recorded list order.  (True interleaving
+    of those tasks - one suspended in the middle while another runs - is not modelled.) *)
+Theorem C01_model_sound_any_task_order :
+  forall tord bord p ops i n r z, order_ok tord -> order_ok bord -> wf_model_x p ->
+    model_sessions_fuelled_o tord bord p ops i ->
+    nth_error ops i = Some (OQuery n) ->
+    nth_error (run_history_o tord bord p init_state ops) i = Some r ->
+    r_out r = RValue z ->
+    MdlSpecX p (inputs_after (firstn i ops),
+                ext_after (firstn (S i) ops) (firstn (S i) (run_history_o tord bord p init_state ops))) n z.
+Proof. exact MdlSound.model_sound_x_o. Qed.
+Theorem C01_model_identity_order_is_run_history : forall p s ops,
+  run_history_o ord_id ord_id p s ops = run_history p s ops.
+Proof. reflexivity. Qed.
+Check ord_rev_ok.        (* reversing is an admissible order ... *)
+Check mex_run_rev.       (* ... it changes the executions, not the answers *)
+Check mex_order_needed.  (* an oracle that drops tasks gives a stale answer: the hypothesis is needed *)
+
 (** no panic, no stuck request: ANY history (refresh, world changes, restarts, earlier queries
     that panicked or ran out of fuel), no fuel hypothesis *)
 Theorem C01_model_no_panic :
@@ -121,5 +144,7 @@ Print Assumptions C01_fw_sound.
 Print Assumptions C01_fw_unguarded_refuted.
 Print Assumptions C01_model_sound.
 Print Assumptions C01_model_sound_x.
+Print Assumptions C01_model_sound_any_task_order.
+Print Assumptions C01_model_identity_order_is_run_history.
 Print Assumptions C01_model_no_panic.
 Print Assumptions C01_model_unguarded_refuted.
